@@ -63,7 +63,7 @@ extern uint64_t g_N;
 /* ------------------------------------------------------------------------------------------------ ghost relations */
 /* location (obj, off) lies on element slot k in [lo, hi) of the buffer starting at d */
 #define LOC_IN(obj, off, d, lo, hi) \
-  ((obj) == OBJ(d) && (off) >= OFF(d) + (uint64_t)(lo) * ESZ && (off) < OFF(d) + (uint64_t)(hi) * ESZ && (((off) - OFF(d)) % ESZ) == 0)
+  ((obj) == OBJ(d) && (off) >= OFF(d) + (uint64_t)(lo) * ESZ && (off) < OFF(d) + (uint64_t)(hi) * ESZ)
 #define CELL_IN(d, lo, hi) LOC_IN(g_cell_obj, g_cell_off, d, lo, hi)
 #define TOK_IN(d, lo, hi)  (g_tok_on && LOC_IN(g_tok_obj, g_tok_off, d, lo, hi))
 #define CELL_AT(d, k)      (g_cell_obj == OBJ(d) && g_cell_off == OFF(d) + (uint64_t)(k) * ESZ)
@@ -91,14 +91,28 @@ extern uint64_t g_N;
 #else
 #define V_TOK_OK(p) (!TOK_IN(V_DATA(p), V_SIZE(p), V_CAPA(p)))
 #endif
+/* tracked locations that lie in an object of the container sit on an element slot of that object */
+#define GRID_OK(off, d) ((off) >= OFF(d) && (((off) - OFF(d)) % ESZ == 0))
+#if FLAVOUR == FL_STD
+#define V_LOC_OK(obj, off, p) (!V_HEAP(p) || (obj) != OBJ(V_DATA(p)) || (GRID_OK(off, V_DATA(p)) && (off) + ESZ <= OFF(V_DATA(p)) + V_HEAP_BYTES(p)))
+#elif FLAVOUR == FL_SMALL
+#define V_LOC_OK(obj, off, p) ((!V_HEAP(p) || (obj) != OBJ(V_DATA(p)) || (GRID_OK(off, V_DATA(p)) && (off) + ESZ <= OFF(V_DATA(p)) + V_HEAP_BYTES(p))) && \
+                               ((obj) != OBJ(p) || (GRID_OK(off, INL(p)) && (off) + ESZ <= OFF(INL(p)) + g_N * ESZ)))
+#else
+#define V_LOC_OK(obj, off, p) ((obj) != OBJ(p) || (GRID_OK(off, INL(p)) && (off) + ESZ <= OFF(INL(p)) + g_N * ESZ))
+#endif
+#define V_ALIGN_OK(p) (V_LOC_OK(g_cell_obj, g_cell_off, p) && (!g_tok_on || V_LOC_OK(g_tok_obj, g_tok_off, p)))
 /* memory shape + words of one container operand, for requires clauses (evaluated left to right) */
 #define V_REQ(p) (__CPROVER_is_fresh(p, V_OBJ_BYTES) && V_WORDS_OK(p) && (V_HEAP(p) ==> __CPROVER_is_fresh(DYNP(p), V_HEAP_BYTES(p))) && \
-                  V_CELL_OK(p) && V_TOK_OK(p) && V_BLK_OK(p))
+                  V_ALIGN_OK(p) && V_CELL_OK(p) && V_TOK_OK(p) && V_BLK_OK(p))
+/* same shape, but every element has already been destroyed (state in which the base-class destructor runs) */
+#define V_REQ_DEAD(p) (__CPROVER_is_fresh(p, V_OBJ_BYTES) && V_WORDS_OK(p) && (V_HEAP(p) ==> __CPROVER_is_fresh(DYNP(p), V_HEAP_BYTES(p))) && \
+                  V_ALIGN_OK(p) && (CAT_TC || !V_OWNS_OBJ(p, g_cell_obj) || g_cell_st == ST_RAW) && !(g_tok_on && V_OWNS_OBJ(p, g_tok_obj)) && V_BLK_OK(p))
 #define V_POST(p) (V_WORDS_OK(p) && V_CELL_OK(p) && V_TOK_OK(p) && V_BLK_OK(p))
 /* cell and token agree where they coincide */
-#define GHOST_OK ((!g_tok_on || !(g_tok_obj == g_cell_obj && g_tok_off == g_cell_off) || (g_cell_st == ST_LIVE && g_cell_val == g_tokval)) && l0_exc == 0)
+#define GHOST_OK (g_blk_state != BLK_FREED && (!g_tok_on || !(g_tok_obj == g_cell_obj && g_tok_off == g_cell_off) || (g_cell_st == ST_LIVE && g_cell_val == g_tokval)) && l0_exc == 0)
 /* the tracked block is consistent with the container: its heap buffer is an outstanding block of capacity*ESZ bytes */
-#define V_BLK_OK(p) (!V_HEAP(p) || g_blk_obj != OBJ(V_DATA(p)) || (g_blk_state == BLK_ALLOCATED && g_blk_bytes == V_HEAP_BYTES(p)))
+#define V_BLK_OK(p) (g_blk_obj != OBJ(p) && (!V_HEAP(p) || g_blk_obj != OBJ(V_DATA(p)) || (g_blk_state == BLK_ALLOCATED && g_blk_bytes == V_HEAP_BYTES(p))))
 /* a location that belongs to no buffer of the container */
 #define V_OWNS_OBJ(p, obj) ((obj) == OBJ(p) || (V_HEAP(p) && (obj) == OBJ(V_DATA(p))))
 
@@ -120,10 +134,10 @@ struct gsnap { uint64_t cell_obj, cell_off; int cell_st, cell_val; _Bool tok_on;
 #define G_UNCHANGED(gs) G_BIND(gs)
 /* pre-state token position relative to a pre-state buffer */
 #define PRE_TOK_IN(gs, sn, lo, hi) ((gs).tok_on && (gs).tok_obj == (sn).data_obj && (gs).tok_off >= (sn).data_off + (uint64_t)(lo) * ESZ && \
-                                    (gs).tok_off < (sn).data_off + (uint64_t)(hi) * ESZ && (((gs).tok_off - (sn).data_off) % ESZ) == 0)
+                                    (gs).tok_off < (sn).data_off + (uint64_t)(hi) * ESZ)
 #define PRE_TOK_IDX(gs, sn) (((gs).tok_off - (sn).data_off) / ESZ)
 #define PRE_CELL_IN(gs, sn, lo, hi) ((gs).cell_obj == (sn).data_obj && (gs).cell_off >= (sn).data_off + (uint64_t)(lo) * ESZ && \
-                                    (gs).cell_off < (sn).data_off + (uint64_t)(hi) * ESZ && (((gs).cell_off - (sn).data_off) % ESZ) == 0)
+                                    (gs).cell_off < (sn).data_off + (uint64_t)(hi) * ESZ)
 
 extern struct vsnap pre_self, pre_o;
 extern struct gsnap pre_g;
